@@ -67,7 +67,10 @@ def _mutants_for(prop: str):
         props = m.get("property") if isinstance(m.get("property"), list) else [m.get("property")]
         if prop in props:
             d = os.path.dirname(meta)
-            out.append(("seeded/" + os.path.basename(d), os.path.join(d, "patch.diff")))
+            # patch_current.diff: the same change carried over to /repo's current HEAD when a later repair
+            # touched the lines the author's patch.diff was written against
+            cur = os.path.join(d, "patch_current.diff")
+            out.append(("seeded/" + os.path.basename(d), cur if os.path.exists(cur) else os.path.join(d, "patch.diff")))
     return out
 
 
